@@ -67,6 +67,9 @@ package compile
 //@ specfn layCells(t any, p int, fn any, n int) bool = tp(t, qCells(fn, p)) == len(fn.Cells) && forall(j, 0, n, tp(t, qCells(fn, p) + 1 + j) == fn.Cells[j])
 //@ specfn layTail(t any, p int, fn any) bool = tp(t, qTail(fn, p)) == fn.MaxStack && tp(t, qTail(fn, p) + 1) == fn.NumParams && tp(t, qTail(fn, p) + 2) == fn.NumKwonlyParams && (tp(t, qTail(fn, p) + 3) != 0 <==> fn.HasVarargs) && (tp(t, qTail(fn, p) + 4) != 0 <==> fn.HasKwargs)
 //@ specfn layFuncode(t any, p int, s int, fn any) bool = layHead(t, p, s, fn) && layPcl(t, p, fn, len(fn.pclinetab)) && layBindings(t, qLocals(fn, p), s + 3, fn.Locals) && layCells(t, p, fn, len(fn.Cells)) && layBindings(t, qFree(fn, p), s + 3 + len(fn.Locals), fn.FreeVars) && layTail(t, p, fn)
+// every field of a Funcode that is not transient is laid down by these predicates: a field added
+// to Funcode without a place in the encoding fails here (it would be lost by Program.Write / CompiledProgram)
+//@ covers [C17] Funcode : layHead layPcl layCells layFuncode layTail except Prog lntOnce lnt
 
 // -- encoder primitives (trusted: encoding/binary.PutVarint / append to the string section)
 //@ func encoder.int64
@@ -91,7 +94,7 @@ package compile
 //@   modifies e.np, e.p
 //@   ensures e.np == old(e.np) + 1 && tp(e, old(e.np)) == x
 //@ func encoder.binding
-//@   prop C17
+//@   prop C17 C16
 //@   modifies e.np, e.ns, e.p, e.s
 //@   ensures e.np == old(e.np) + 3 && e.ns == old(e.ns) + 1 && layBinding(e, old(e.np), old(e.ns), bind)
 //@ func encoder.bindings
@@ -139,7 +142,7 @@ package compile
 //@   modifies d.ip, d.p
 //@   ensures d.ip == old(d.ip) + 1 && (result <==> tp(d, old(d.ip)) != 0)
 //@ func decoder.binding
-//@   prop C17
+//@   prop C17 C16
 //@   modifies d.ip, d.is, d.p, d.s
 //@   ensures d.ip == old(d.ip) + 3 && d.is == old(d.is) + 1 && layBinding(d, old(d.ip), old(d.is), result)
 //@ func decoder.bindings
